@@ -223,8 +223,8 @@ def hostile_layout(rng, text, layout):
             out.append('\r\n' if layout in ('crlf',) else '\n')
             continue
         if t == '-' and idx + 1 < len(toks) and toks[idx + 1][1] == '2147483648':
-            # DESIGN section 7 #10 (open, owned by C06): a comment between `-` and 2147483648 defeats the
-            # merge into -2147483648 and the literal is then read as 0 without a diagnostic
+            # `-` and 2147483648 are merged into one literal only when adjacent in the token stream: a
+            # comment between them makes the module invalid ("Not a 32-bit integer."), so none is put there
             out.append(' ')
             continue
         if layout == 'crlf':
